@@ -5,11 +5,31 @@ import random
 from .. import gen, impl, oracle, ser, stream
 
 ID = "C04"
-LEVEL = "translation_validation"
-PROPS_MODULE = None
-THEOREMS = []
-LEAN_FILES = []
-PLANNED = ["koszul_cocycle", "oddpos_assoc", "tdotF_swap", "tdotF_assoc_canonical"]
+LEVEL = "proof"
+PROPS_MODULE = "SymmModel.Props.C04"
+THEOREMS = [
+    "SymmModel.C04.permuted_compose",
+    "SymmModel.C04.compose_isPerm",
+    "SymmModel.C04.koszul_cocycle",
+    "SymmModel.C04.koszul_cocycle_needs_length",
+    "SymmModel.C04.block_move_sign",
+    "SymmModel.C04.reverse_block_sign",
+    "SymmModel.C04.oddLt_strict_total",
+    "SymmModel.C04.resolveScan_sorted",
+    "SymmModel.C04.resolveScan_sign",
+    "SymmModel.C04.sorted_unique",
+    "SymmModel.C04.resolveScan_fuel",
+    "SymmModel.C04.resolveScan_total",
+    "SymmModel.C04.resolveCombinedOddpos_eq_merge",
+    "SymmModel.C04.oddpos_sign",
+    "SymmModel.C04.oddpos_assoc",
+    "SymmModel.C04.resolveScan_annihilate_step",
+    "SymmModel.C04.resolveScan_annihilate_adjacent",
+    "SymmModel.C04.resolveScan_pair",
+    "SymmModel.C04.resolveScan_clash_step"
+]
+LEAN_FILES = ["SymmModel.Props.C04", "SymmModel.Proofs.Oddpos", "SymmModel.Proofs.Koszul"]
+PLANNED = ["S4 tdotF_axes_perm", "S5 tdotF_swap", "S6 several pairs at once = one after another", "S7 tdotF_assoc_canonical", "conjugate-pair annihilation beyond the adjacent case"]
 RULE = ("random networks of 2-4 fermionic tensors (chains, triangles, stars; with and without dangling legs), all "
         "symmetries, random bond orientations, every mix of even/odd charges with distinct labels, sparse, pending "
         "signs; 4 random routes per network differing in contraction order, operand order, axis listing order, "
